@@ -77,6 +77,7 @@ type Op struct {
 	Private bool   `json:"private,omitempty"` // push: GetPrivate instead of GetWrapped
 	Keep    uint32 `json:"keep,omitempty"`    // gc: bit i set = drop the i-th visited pair
 	Dirty   bool   `json:"dirty,omitempty"`   // reopen without persisting the layers
+	Race    int    `json:"race,omitempty"`    // gc: another goroutine commits a value for the Race-th visited key while the pass is there
 }
 
 // WOp is one writer operation of the concurrent mode.
@@ -332,6 +333,9 @@ func drawOp(d drawer) Op {
 		o.Stop = d.n(0, 5, "stop")
 		if o.Stop > 3 {
 			o.Stop = 0
+		}
+		if d.n(0, 3, "race") == 3 {
+			o.Race = d.n(1, 3, "raceat")
 		}
 	case opReopen:
 		o.Dirty = d.n(0, 1, "dirty") == 1
